@@ -236,19 +236,111 @@ def _joins(model, rep):
        "number of self's points; duplicates merged afterwards",
        "Mesh.__add__", "the joined connectivity does not shift the second "
        "mesh by the number of points of the first", fn.lineno)
-    # ---- extrusion: layers
-    for modn, clsn in (("skfem.mesh.mesh_tri_1", "MeshTri1"),):
-        f2 = model.func(modn, f"{clsn}.__mul__")
-        s = src(f2.node)
-        ok = ("np.vstack((self.t + diff, self.t + self.nvertices + diff))"
-              in s and "diff += self.nvertices" in s
-              and "np.vstack((self.p, np.array(self.p.shape[1] * [p])))"
-              in s)
-        _v(rep, R3, ok, f"{clsn}.__mul__:layers",
-           "layer i holds a copy of the points; prisms join layer i (shift "
-           "i*nv) with layer i+1 (shift (i+1)*nv)", f"{clsn}.__mul__",
-           "extrusion layers are not shifted by multiples of the number of "
-           "base vertices", f2.lineno, f2.path)
+    # ---- extrusion: layers (symbolic run with three levels)
+    _extrusion(model, rep)
+
+
+def _extrusion(model, rep):
+    """MeshTri1 * MeshLine1: every level z_i gets a copy of *all* stored
+    points of the base mesh (block i, n0 points); the prisms between level
+    i and i + 1 join the base cells shifted by i*n0 and (i + 1)*n0."""
+    R3 = "C18-R3"
+    cls = model.cls("skfem.mesh.mesh_tri_1", "MeshTri1")
+    lcls = model.cls("skfem.mesh.mesh_line_1", "MeshLine1")
+    fn = cls.methods["__mul__"]
+    N0 = Poly.sym("n0")
+    LEVELS = 3
+    cap = {}
+
+    class Pts:
+        """accumulated (3, k*n0) point array: list of layer blocks"""
+        skv_isarray = True
+
+        def __init__(self, layers):
+            self.layers = layers
+
+    class Cells:
+        skv_isarray = True
+
+        def __init__(self, prisms):
+            self.prisms = prisms
+
+    class Z:
+        """other.p[0]: the levels"""
+        skv_isarray = True
+
+        def skv_getitem(self, ix):
+            if ix == 0:
+                return self
+            raise Unsupported("levels index")
+
+        def skv_len(self):
+            return LEVELS
+
+        def skv_iter(self):
+            return [Poly.sym(f"z{i}") for i in range(LEVELS)]
+
+    def hook(interp, name, args, kwargs, node):
+        if name == "numpy.zeros":
+            shp = args[0]
+            return Pts([]) if shp[0] == 3 else Cells([])
+        if name == "numpy.sort" and isinstance(args[0], Z):
+            return args[0]
+        if name == "numpy.array":
+            return ("levelrow", args[0])
+        if name == "numpy.vstack":
+            seq = list(args[0])
+            if len(seq) == 2 and isinstance(seq[0], PArr):
+                return ("layer", seq[0].k, seq[1])
+            if len(seq) == 2 and all(isinstance(x, TArr) for x in seq):
+                return ("prism", seq[0].k, seq[0].offset, seq[1].k,
+                        seq[1].offset)
+            return NotImplemented
+        if name == "numpy.hstack":
+            seq = list(args[0])
+            if len(seq) == 2 and isinstance(seq[0], Pts):
+                return Pts(seq[0].layers + [seq[1]])
+            if len(seq) == 2 and isinstance(seq[0], Cells):
+                return Cells(seq[0].prisms + [seq[1]])
+            return NotImplemented
+        if name in ("numpy.max", "numpy.amax") and args and isinstance(
+                args[0], TArr):
+            return Poly.sym(f"maxt{args[0].k}")
+        if name.endswith(".MeshWedge1"):
+            cap["args"] = args
+            return "WEDGES"
+        return NotImplemented
+
+    class ListTimes:
+        pass
+    me = Obj(cls, {"p": PArr(0), "t": TArr(0), "doflocs": PArr(0)})
+    other = Obj(lcls, {"p": Z()})
+    try:
+        Interp(model, call_hook=hook).call(fn, [other], {}, self_obj=me)
+    except (Unsupported, Raised) as e:
+        raise AnalysisError(f"MeshTri1.__mul__: {e}")
+    a = cap.get("args")
+    if not a or not isinstance(a[0], Pts) or not isinstance(a[1], Cells):
+        raise AnalysisError("MeshTri1.__mul__: wedge mesh not constructed "
+                            "from accumulated points and cells")
+    layers, prisms = a[0].layers, a[1].prisms
+    okp = len(layers) == LEVELS and all(
+        isinstance(l, tuple) and l[0] == "layer" and l[1] == 0
+        for l in layers)
+    want = [("prism", 0, N0 * i, 0, N0 * (i + 1)) for i in range(LEVELS - 1)]
+    okc = list(prisms) == want
+    got = [(str(p_[2]), str(p_[4])) for p_ in prisms
+           if isinstance(p_, tuple) and len(p_) == 5]
+    _v(rep, R3, okp and okc, "MeshTri1.__mul__:layers",
+       f"{LEVELS} levels: each holds a copy of all n0 stored points; prisms "
+       f"of layer i join the base cells shifted by i*n0 and (i+1)*n0",
+       "MeshTri1.__mul__",
+       f"extrusion: {len(layers)} point blocks of n0 points each, prisms "
+       f"shifted by {got}; expected shifts "
+       f"{[(str(N0 * i), str(N0 * (i + 1))) for i in range(LEVELS - 1)]} - "
+       f"the connectivity of a layer must be shifted by the number of "
+       f"*stored* points per level (max(t) + 1 differs when the base mesh "
+       f"has unused trailing vertices)", fn.lineno)
 
 
 def _restrict(model, rep):
